@@ -27,7 +27,7 @@ PROPS = {
         level='proof',
         trusted_base=TRUSTED_VERUS,
         assumptions=[A2, A9, A10 + '; node_type() / node_name() of a node are uninterpreted functions of the node (namespace nodes answer Attribute in this library)', A11, A8],
-        not_decided='everything else C05 asks: the attribute axis and attribute / namespace nodes as context nodes of following and preceding (their DOM parent is None), name tests against expanded names (see C10), predicates (by running the real code: /r/*[1.5] selects the first child because a numeric predicate is truncated, not compared -- NOT decided by any check: the value of the predicate expression is internal to eval_predicate), operators on node-sets, string-values; `self::*` on an attribute node (principal node type depends on the axis, which eval_node_test is not given)',
+        not_decided='everything else C05 asks: the attribute axis and attribute / namespace nodes as context nodes of following and preceding (their DOM parent is None), name tests against expanded names (see C10), the value of a predicate expression itself (eval_predicate is proved to turn a numeric value into `number = position` and any other value into its boolean value, over a named but otherwise unconstrained value), operators on node-sets, string-values; `self::*` on an attribute node (principal node type depends on the axis, which eval_node_test is not given)',
         explanation='node tests of the evaluator: eval_node_test answers `*` with "the node is an element or an attribute (or namespace) node", text() with text / CDATA / entity-reference nodes, comment() and processing-instruction() by node type, node() always, and processing-instruction(\'t\') by node type and target, for every node; the axes (unit c05_axes, over uninterpreted parent / children / sibling-index functions tied together by a tree well-formedness precondition): ancestor, ancestor-or-self, child, descendant, descendant-or-self, following-sibling, preceding-sibling, following and preceding return exactly the node list XPath 1.0 section 2.2 defines, in axis order (following: the subtrees of the following siblings, then whatever follows the parent; preceding: the reversed subtrees of the preceding siblings, then whatever precedes the parent, ancestors excluded); the core functions count, string, concat, starts-with, contains, substring-before, substring-after, boolean, not, true, false, number, floor, ceiling, round return what XPath 1.0 section 4 prescribes in terms of the string / number / boolean value of their arguments (the conversions themselves are uninterpreted here; scalars: C09)',
     ),
     'C03': dict(
